@@ -475,7 +475,7 @@ class ImmutableVersion(dns.zone.Version):
         self.origin = version.origin
         for name in version.changed:
             node = version.nodes.get(name)
-            if node:
+            if node is not None:
                 version.nodes[name] = ImmutableNode(node)
         self.nodes = cast(MutableMapping[dns.name.Name, dns.node.Node], version.nodes)
         self.nodes.make_immutable()  # type: ignore
